@@ -646,6 +646,18 @@ def runArcParam (args : List String) : String :=
     | _ => "bad-args"
   | _ => "bad-args"
 
+/-- `arcinit sx sy ex ey rx ry wx wy large sweep`: the constructor (signed radii, integer flags) -/
+def runArcInit (args : List String) : String :=
+  match args with
+  | [sx, sy, ex, ey, rx, ry, wx, wy, la, sw] =>
+    match parseRats? [sx, sy, ex, ey, rx, ry, wx, wy], parseInt? la, parseInt? sw with
+    | some [sx, sy, ex, ey, rx, ry, wx, wy], some la, some sw =>
+      let (p, l, s) := ArcParam.arcInit sqrtStandin (fun x => 90 * (1 - x)) (fun x => decide (sabs x ≤ (1 : Rat) / 100000000))
+        sx sy ex ey rx ry wx wy la sw
+      showRats [p.rx, p.ry, p.cx, p.cy, p.theta, p.delta] ++ s!" {l} {s}"
+    | _, _, _ => "bad-args"
+  | _ => "bad-args"
+
 /-! C11: Arc.point_to_t on exact rationals (same stand-ins as the harness) -/
 def runArcPtt (args : List String) : String :=
   match parseRats? args with
@@ -951,6 +963,7 @@ def handle (cmd : String) (args : List String) : String :=
   | "cubcache" => runCubCache false args
   | "cubcache_buggy" => runCubCache true args
   | "arcparam" => runArcParam args
+  | "arcinit" => runArcInit args
   | "arcptt" => runArcPtt args
   | "lineline" => runLineLine args
   | "hull" => runHull args
